@@ -21,21 +21,38 @@ func init() {
 		ID:              "C14",
 		Level:           "exploration",
 		RaceIsViolation: true,
-		Cases:           func(tier string) int { return vlib.TierN(tier, 640, 40000) },
-		Rule: "case i runs class i%4: (0) middleware-concurrent, (1) publisher-decorator-concurrent: a multiset of 4..96 messages over 1..5 keys (payload sizes around the 64-byte read limit: equal prefixes with different tails, keys from SHA-256/Adler-32 with limits 1..MaxInt64 or a metadata field), " +
+		Cases:           func(tier string) int { return baseCases(tier) + ctxCases(tier) },
+		Rule: "cases 0..639 (quick) / 0..39999 (thorough): case i runs class i%4: (0) middleware-concurrent, (1) publisher-decorator-concurrent: a multiset of 4..96 messages over 1..5 keys (payload sizes around the 64-byte read limit: equal prefixes with different tails, keys from SHA-256/Adler-32 with limits 1..MaxInt64 or a metadata field), " +
 			"presented by 1..32 goroutines released by a barrier with yield injection at the repository's hook point, retention window 1 h (or the default repository, Repository left nil: one minute); exactly one message per key may reach the handler / inner publisher, all others must come back as (nil,nil) resp. acked and filtered; " +
 			"(2) window: windows 5..50 ms, IsDuplicate polled with conservative monotonic stamps: a key accepted at [a0,a1] must be reported duplicate by any call ending before a0+window, and must be accepted again before the harness's own ticker of period window/2 fired 12 times past a1+window (else inconclusive if the control ticker itself was late); " +
 			"(3) hashers (pure): pairs of payloads with a common prefix >= max(limit,64) must get equal keys from both built-in hashers, pairs differing inside it different SHA-256 keys. " +
-			"Non-trivial: at least one key had >=2 concurrent presentations (0,1) / at least one duplicate answer and one re-acceptance were observed (2) / >=20 pairs (3). Distinct = (class, shape, observed winner pattern).",
+			"The following 320 (quick) / 12000 (thorough) cases alternate (4) ctx-middleware, (5) ctx-decorator: 1..4 keys, 1..18 arrivals whose MESSAGE CONTEXTS are live (Background, cancelable, far deadline), cancelled before, past their deadline, child of a cancelled parent, " +
+			"cancelled inside the KeyFactory (after the deduplicator took the message), cancelled at the repository's hook point (inside IsDuplicate, before its critical section), cancelled after the call returned, or carry a 0.05..3 ms deadline that races the presentation; " +
+			"Deduplicator.Timeout in {-1s,0,1ms,5ms,50ms,1s,1min,1h}, KeyFactory nil (default) in 15%, Repository nil (default) in 50%, presented sequentially (60%) or by 2..12 barrier-released goroutines, decorator batches of 1..3; " +
+			"an arrival may come back with an error only if its context may be done or Timeout < 1 min (live-arrival-rejected otherwise); a message may be dropped as a success only if a message of its key reached the handler/publisher (dropped-without-winner: judged at the drop when sequential, at the end otherwise); " +
+			"after all arrivals one Background-context message per key is presented through a Deduplicator{Timeout: 1min} on the same repository: it must get through iff nothing of its key did, so a key remembered for a rejected arrival is seen as a lost redelivery; at most one arrival per key gets through (duplicate-passed). " +
+			"35% of the ctx-decorator cases also publish a batch {fresh message, message whose KeyFactory fails} and retry the fresh one (clause batch-abort-key-remembered: the fresh one must get through). " +
+			"Non-trivial: at least one key had >=2 concurrent presentations (0,1) / at least one duplicate answer and one re-acceptance were observed (2) / >=20 pairs (3) / at least one arrival whose context may be done (4,5). Distinct = (class, shape, observed winner pattern).",
 		Assumptions: []string{
 			"keys are compared through an independent reference (payload prefix / metadata value); hash collisions between different prefixes are not observable and assumed absent",
 			"time is used only as a lower bound (window) and with a control ticker for the bounded 'accepted again' clause",
+			"ctx classes: an ExpiringKeyRepository may honour its context, so an error for an arrival whose derived context may be done is tolerated and counted (ctx_rejected_with_tolerated_error); such an arrival then counts neither as the one that got through nor as a dropped duplicate",
+			"ctx classes: the final presentations use a second Deduplicator (Timeout 1 min) sharing Repository and KeyFactory with the one under test; a second acceptance is judged only if the whole case took less than a quarter of the retention window (else inconclusive)",
 		},
 		Run: run,
 	})
 }
 
+// baseCases: the classes of round 1/2 keep their case indices (and therefore their per-case PRNG streams).
+func baseCases(tier string) int { return vlib.TierN(tier, 640, 40000) }
+
+// ctxCases: message-context classes appended behind them.
+func ctxCases(tier string) int { return vlib.TierN(tier, 320, 12000) }
+
 func run(e *vlib.Env) vlib.Result {
+	if b := baseCases(e.Tier); e.Idx >= b {
+		return ctxClass(e, (e.Idx-b)%2 == 1)
+	}
 	switch e.Idx % 4 {
 	case 0:
 		return conc(e, false)
